@@ -31,9 +31,18 @@ def decimals():
                 for e in range(-18, 19):
                     d = Decimal((sign, tuple(int(c) for c in digs), e))
                     cases += 1
-                    x = dc.DecimalConverter.to_xml(d)
-                    back = dc.DecimalConverter.to_py(x)
-                    again = dc.DecimalConverter.to_xml(back)
+                    try:
+                        x = dc.DecimalConverter.to_xml(d)
+                        if 'E' in x or 'e' in x:
+                            bad.append({'key': 'decimal-exponent-written', 'detail': f'{d!r} -> {x!r}'})
+                            continue
+                        back = dc.DecimalConverter.to_py(x)
+                        again = dc.DecimalConverter.to_xml(back)
+                    except Exception as ex:  # noqa: BLE001
+                        bad.append({'key': 'decimal-conversion-raises', 'detail': f'{d!r}: {ex!r}'})
+                        continue
+                    if len(bad) > 50:
+                        return cases, bad
                     if 'E' in x or 'e' in x:
                         bad.append({'key': 'decimal-exponent-written', 'detail': f'{d!r} -> {x!r}'})
                     elif back != d:
